@@ -2,6 +2,7 @@ package main
 
 import (
 	"encoding/base64"
+	"fmt"
 	"math/rand"
 	"sort"
 	"strings"
@@ -190,4 +191,134 @@ func init() {
 
 func kvLoader() ifc.KvLoader {
 	return kv.NewLoader(pkgloader.NewFileLoaderAtRoot(filesys.MakeFsInMemory()), depProvider.GetFieldValidator())
+}
+
+// gen.sources: one generator's key/value sources of ALL kinds — env files (comments, blank lines, BOM, CRLF, lines
+// without '='), literals (quoting), file sources (key=path and bare path) — through the real ConfigMap factory
+// (kv.loader.Load + makeValidatedDataMap), with keys drawn from one small alphabet so that the same key often comes
+// from two kinds of source.  Model: lean/Kust/Kv.lean.
+func init() {
+	components["gen.sources"] = func(r *rand.Rand, tier string) (map[string]interface{}, func() (interface{}, string)) {
+		keys := []string{"LOG_LEVEL", "A", "b", "mode", "a.b", "x-y", "k1", "pw.txt"}
+		odd := []string{"1x", "bad key", "", "é", "a/b"}
+		key := func() string {
+			if r.Intn(12) == 0 {
+				return pickS(r, odd)
+			}
+			return pickS(r, keys)
+		}
+		val := func() string { return pickS(r, []string{"info", "debug", "", "x=y", "\"q\"", "'s'", " padded ", "1"}) }
+		var envs []string
+		for i := r.Intn(3); i > 0; i-- {
+			var sb strings.Builder
+			if r.Intn(6) == 0 {
+				sb.WriteString("\ufeff")
+			}
+			for j := r.Intn(4); j > 0; j-- {
+				switch r.Intn(7) {
+				case 0:
+					sb.WriteString("# comment " + key() + "=x")
+				case 1:
+					sb.WriteString("")
+				case 2:
+					sb.WriteString("  " + key() + "=" + val())
+				case 3:
+					sb.WriteString(key())
+				default:
+					sb.WriteString(key() + "=" + val())
+				}
+				sb.WriteString(pickS(r, []string{"\n", "\n", "\r\n"}))
+			}
+			if r.Intn(3) == 0 {
+				sb.WriteString(key() + "=" + val()) // last line without a line break
+			}
+			envs = append(envs, sb.String())
+		}
+		var lits []string
+		for i := r.Intn(3); i > 0; i-- {
+			if r.Intn(12) == 0 {
+				lits = append(lits, key())
+			} else {
+				lits = append(lits, key()+"="+val())
+			}
+		}
+		fileContent := map[string]string{"pw.txt": "secret", "dir/mode": "file-mode", "A": "content-of-A"}
+		var files []string
+		for i := r.Intn(3); i > 0; i-- {
+			switch r.Intn(6) {
+			case 0:
+				files = append(files, pickS(r, []string{"pw.txt", "dir/mode", "A", "missing.txt"}))
+			case 1:
+				files = append(files, pickS(r, []string{"=pw.txt", "k1=", "a=b=c"}))
+			default:
+				files = append(files, key()+"="+pickS(r, []string{"pw.txt", "dir/mode", "A", "missing.txt"}))
+			}
+		}
+		v := depProvider.GetFieldValidator()
+		envok, keyok := map[string]interface{}{}, map[string]interface{}{}
+		for _, k := range append(append(append([]string{}, keys...), odd...), "# comment LOG_LEVEL", "mode", "pw.txt", "dir/mode") {
+			envok[k] = v.IsEnvVarName(k) == nil
+			keyok[k] = v.ErrIfInvalidKey(k) == nil
+		}
+		// every candidate key the sources can yield (text before the first '=' of a trimmed line / spec)
+		cand := func(s string) {
+			s = strings.TrimPrefix(s, "\ufeff")
+			s = strings.TrimLeft(s, " \t")
+			if i := strings.Index(s, "="); i >= 0 {
+				s = s[:i]
+			}
+			envok[s] = v.IsEnvVarName(s) == nil
+			keyok[s] = v.ErrIfInvalidKey(s) == nil
+		}
+		for _, e := range envs {
+			for _, l := range strings.Split(strings.ReplaceAll(e, "\r\n", "\n"), "\n") {
+				cand(l)
+			}
+		}
+		for _, l := range append(append([]string{}, lits...), files...) {
+			cand(l)
+		}
+		var wenvs, wlits, wfiles []interface{}
+		for _, e := range envs {
+			wenvs = append(wenvs, e)
+		}
+		for _, l := range lits {
+			wlits = append(wlits, l)
+		}
+		for _, f := range files {
+			wfiles = append(wfiles, f)
+		}
+		fc := map[string]interface{}{}
+		for k, c := range fileContent {
+			fc[k] = c
+		}
+		args := map[string]interface{}{"envs": wenvs, "literals": wlits, "files": wfiles, "content": fc, "envok": envok, "keyok": keyok}
+		return args, func() (interface{}, string) {
+			fs := filesys.MakeFsInMemory()
+			for p, c := range fileContent {
+				fs.WriteFile("/"+p, []byte(c))
+			}
+			var envPaths []string
+			for i, e := range envs {
+				p := fmt.Sprintf("env%d.env", i)
+				fs.WriteFile("/"+p, []byte(e))
+				envPaths = append(envPaths, p)
+			}
+			ldr := kv.NewLoader(pkgloader.NewFileLoaderAtRoot(fs), v)
+			res, err := rf().MakeConfigMap(ldr, &types.ConfigMapArgs{GeneratorArgs: types.GeneratorArgs{Name: "g",
+				KvPairSources: types.KvPairSources{EnvSources: envPaths, LiteralSources: lits, FileSources: files}}})
+			if err != nil {
+				m := err.Error()
+				for _, c := range [][2]string{{"illegally repeats the key", "dupkey"}, {"invalid literal source", "literal"}, {"is not a valid key name", "badkey"},
+					{"missing key name", "filesrc"}, {"missing file path", "filesrc"}, {"key name or file path contains", "filesrc"},
+					{"a valid environment variable name", "envname"}, {"doesn't exist", "notfound"}, {"must resolve to a file", "notfound"}} {
+					if strings.Contains(m, c[0]) {
+						return map[string]interface{}{"err": c[1]}, "err-" + c[1]
+					}
+				}
+				return map[string]interface{}{"err": "other:" + m}, "err-other"
+			}
+			return map[string]interface{}{"ok": dictWire(res.GetDataMap())}, "ok"
+		}
+	}
 }
